@@ -23,7 +23,8 @@ import warnings
 
 import pymbolic.primitives as p
 
-ROOTS = {"Expression": (p.Expression, ()),
+ROOTS = {"AlgebraicLeaf": (p.AlgebraicLeaf, ()), "Leaf": (p.Leaf, ()),
+         "Expression": (p.Expression, ()),
          "Variable": (p.Variable, ("name",)),
          "Call": (p.Call, ("function", "parameters")),
          "Lookup": (p.Lookup, ("aggregate", "name"))}
